@@ -57,7 +57,9 @@ WEIRD_ATTRS = ["#[debug(bound(T, U, V, W, X1, X2))]", "#[ord(bound(A, B, C, D, E
 OTHER_ITEMS = ["union X { a: u8, b: u16 }", "fn f() {}", "trait T {}", "mod m {}", "type A = u8;", "impl X {}", "impl !Send for X {}", "impl core::ops::Add for X {}", "impl Add<u8, u8> for X { type Output = X; }",
                "impl<T> core::ops::Add<T> for X<T> { type Output = Self; fn add(self, r: T) -> Self { self } }", "impl core::ops::AddAssign for X { fn add_assign(&mut self, r: X) {} }", "impl core::ops::Neg for X { type Output = X; fn neg(self) -> X { self } }",
                "struct X();", "struct X {}", "enum X {}", "struct r#struct { r#type: u8, r#fn: u8 }", "enum r#enum { r#as(u8), r#dyn { r#in: u8 } }", "struct X<'a, T: ?Sized + 'a>(&'a T);", "struct X(u8, u8, u8, u8, u8, u8, u8, u8, u8, u8, u8, u8);",
-               "enum X { A = 1, B = isize::MAX }", "struct X(dyn Tr + Send);", "struct X<'a>(dyn Tr + Send + 'a);", "struct X { a: u32, t: dyn Tr + Send }", "struct X(impl Tr + Send);", "struct X(dyn Tr);",
+               "enum X { A = 1, B = isize::MAX }", "#[default(match 0u8 { _ => X(1) } + X(2))] struct X(u8);", "#[default(if true { 1 } else { 2 } == 1)] enum X { A, B }", "#[default({ X(1) } + X(2))] struct X(u8);",
+               "struct X(#[partial_eq(key = len.$())] String);", "struct X(#[ord(key = ::$.len())] String);", "struct X(#[eq(key = S { $ })] String);", "struct X(#[hash(key = Default.$)] String);", "struct X(#[partial_eq(by = $)] u8);", "#[default(let x = 1)] struct X(u8);",
+               "struct X(dyn Tr + Send);", "struct X<'a>(dyn Tr + Send + 'a);", "struct X { a: u32, t: dyn Tr + Send }", "struct X(impl Tr + Send);", "struct X(dyn Tr);",
                "impl Add<dyn A + B> for X { type Output = X; fn add(self, r: dyn A + B) -> X { self } }", "impl Sub<i32> for dyn A + Send { type Output = i32; fn sub(self, r: i32) -> i32 { r } }", "struct X<const N: usize>([u8; N]);", "pub(in self) struct X;", "struct X where;", "struct X<T,>(T,);", "macro_rules! m { () => {} }", "struct X(#[cfg(any())] u8, u16);"]
 
 
